@@ -23,10 +23,16 @@
 (*   EnterSafe  TRUE: a failure while entering the window restores what    *)
 (*              was already taken away; FALSE: __exit__ is simply not run  *)
 (*   GuardMode  "threadlocal" | "shared"                                   *)
+(*   SaveMode   "raw": the window saves the object's own entry as stored   *)
+(*              (vars(f)[attr]); "read": the value getattr returns.  They  *)
+(*              differ for the attributes in Descr, whose stored entry is  *)
+(*              a descriptor (a class whose own __signature__ is           *)
+(*              as_forged): "read" puts the COMPUTED value back in place   *)
+(*              of the descriptor.                                         *)
 (***************************************************************************)
 EXTENDS Naturals, FiniteSets, Sequences, TLC
 
-CONSTANTS Threads, Kind, Attrs0, Faults, EnterSafe, GuardMode
+CONSTANTS Threads, Kind, Attrs0, Faults, EnterSafe, GuardMode, SaveMode, Descr
 
 (* scenarios (substituted for Kind in the cfg) *)
 Scen_R   == [t \in {1} |-> "retrieve"]
@@ -42,13 +48,16 @@ AttrOrder == <<"W", "S">>                     \* cleanup_functools_wrapper.attrs
 VARIABLES attrs,      \* attributes currently present on f
           pc, idx,    \* per thread: control point, position in AttrOrder
           saved,      \* per thread: attributes taken away by this thread's window
+          content,    \* what the object's dict holds for each attribute: "entry" (what was there initially) | "computed"
+          savedval,   \* per thread: the value kept for each saved attribute
           seenS, seenW, result, guard
-vars == <<attrs, pc, idx, saved, seenS, seenW, result, guard>>
+vars == <<attrs, pc, idx, saved, content, savedval, seenS, seenW, result, guard>>
 
 None == "none"
 Init == /\ attrs = Attrs0
         /\ pc = [t \in Threads |-> CASE Kind[t] = "retrieve" -> "save" [] Kind[t] = "inspect" -> "readS" [] OTHER -> "gcheck"]
         /\ idx = [t \in Threads |-> 1] /\ saved = [t \in Threads |-> {}]
+        /\ content = [a \in {"W", "S"} |-> "entry"] /\ savedval = [t \in Threads |-> [a \in {"W", "S"} |-> "entry"]]
         /\ seenS = [t \in Threads |-> FALSE] /\ seenW = [t \in Threads |-> FALSE]
         /\ result = [t \in Threads |-> None] /\ guard = {}
 
@@ -60,49 +69,52 @@ SeqAnswer(t) == CASE Kind[t] = "retrieve" -> "own"
 
 (* ---- the window: __enter__ *)
 Save(t) == /\ pc[t] = "save"
-           /\ IF idx[t] > Len(AttrOrder) THEN pc' = [pc EXCEPT ![t] = "readS"] /\ UNCHANGED <<idx, saved>>
+           /\ IF idx[t] > Len(AttrOrder) THEN pc' = [pc EXCEPT ![t] = "readS"] /\ UNCHANGED <<idx, saved, savedval>>
               ELSE LET a == AttrOrder[idx[t]] IN
-                   IF a \in attrs THEN saved' = [saved EXCEPT ![t] = @ \cup {a}] /\ pc' = [pc EXCEPT ![t] = "del"] /\ UNCHANGED idx
-                   ELSE idx' = [idx EXCEPT ![t] = @ + 1] /\ UNCHANGED <<pc, saved>>        \* AttributeError: skipped
-           /\ UNCHANGED <<attrs, seenS, seenW, result, guard>>
+                   IF a \in attrs THEN /\ saved' = [saved EXCEPT ![t] = @ \cup {a}] /\ pc' = [pc EXCEPT ![t] = "del"] /\ UNCHANGED idx
+                                        /\ savedval' = [savedval EXCEPT ![t][a] = IF SaveMode = "read" /\ a \in Descr THEN "computed" ELSE content[a]]
+                   ELSE idx' = [idx EXCEPT ![t] = @ + 1] /\ UNCHANGED <<pc, saved, savedval>>        \* AttributeError: skipped
+           /\ UNCHANGED <<attrs, content, seenS, seenW, result, guard>>
 (* the attribute getter raises something else: __enter__ fails, __exit__ is not run by the with statement *)
 SaveFails(t) == /\ Faults /\ pc[t] = "save" /\ idx[t] <= Len(AttrOrder)
-                /\ IF EnterSafe THEN attrs' = attrs \cup saved[t] /\ saved' = [saved EXCEPT ![t] = {}]
-                   ELSE UNCHANGED <<attrs, saved>>
+                /\ IF EnterSafe THEN /\ attrs' = attrs \cup saved[t] /\ saved' = [saved EXCEPT ![t] = {}]
+                                     /\ content' = [a \in {"W", "S"} |-> IF a \in saved[t] THEN savedval[t][a] ELSE content[a]]
+                   ELSE UNCHANGED <<attrs, saved, content>>
                 /\ pc' = [pc EXCEPT ![t] = "raised"]
-                /\ UNCHANGED <<idx, seenS, seenW, result, guard>>
+                /\ UNCHANGED <<idx, savedval, seenS, seenW, result, guard>>
 Del(t) == /\ pc[t] = "del"
           /\ attrs' = attrs \ {AttrOrder[idx[t]]}
           /\ idx' = [idx EXCEPT ![t] = @ + 1] /\ pc' = [pc EXCEPT ![t] = "save"]
-          /\ UNCHANGED <<saved, seenS, seenW, result, guard>>
+          /\ UNCHANGED <<saved, content, savedval, seenS, seenW, result, guard>>
 (* ---- inspect.signature reading the object (inside the window for a retriever, bare for an observer) *)
 ReadS(t) == /\ pc[t] = "readS" /\ seenS' = [seenS EXCEPT ![t] = "S" \in attrs] /\ pc' = [pc EXCEPT ![t] = "readW"]
-            /\ UNCHANGED <<attrs, idx, saved, seenW, result, guard>>
+            /\ UNCHANGED <<attrs, idx, saved, content, savedval, seenW, result, guard>>
 ReadW(t) == /\ pc[t] = "readW" /\ seenW' = [seenW EXCEPT ![t] = "W" \in attrs]
             /\ result' = [result EXCEPT ![t] = Answer(seenS[t], "W" \in attrs)]
             /\ pc' = [pc EXCEPT ![t] = IF Kind[t] = "retrieve" THEN "restore" ELSE "done"]
-            /\ UNCHANGED <<attrs, idx, saved, seenS, guard>>
+            /\ UNCHANGED <<attrs, idx, saved, content, savedval, seenS, guard>>
 ReadFails(t) == /\ Faults /\ pc[t] \in {"readS", "readW"}
                 /\ pc' = [pc EXCEPT ![t] = IF Kind[t] = "retrieve" THEN "restore_raising" ELSE "raised"]
-                /\ UNCHANGED <<attrs, idx, saved, seenS, seenW, result, guard>>
+                /\ UNCHANGED <<attrs, idx, saved, content, savedval, seenS, seenW, result, guard>>
 (* ---- __exit__: runs on the normal and on the exceptional path *)
 Restore(t) == /\ pc[t] \in {"restore", "restore_raising"}
               /\ attrs' = attrs \cup saved[t] /\ saved' = [saved EXCEPT ![t] = {}]
+              /\ content' = [a \in {"W", "S"} |-> IF a \in saved[t] THEN savedval[t][a] ELSE content[a]]
               /\ pc' = [pc EXCEPT ![t] = IF pc[t] = "restore" THEN "done" ELSE "raised"]
-              /\ UNCHANGED <<idx, seenS, seenW, result, guard>>
+              /\ UNCHANGED <<idx, savedval, seenS, seenW, result, guard>>
 (* ---- as_forged.__get__ *)
 GKey(t) == IF GuardMode = "shared" THEN "o" ELSE <<"o", t>>
 GCheck(t) == /\ pc[t] = "gcheck"
              /\ IF GKey(t) \in guard THEN result' = [result EXCEPT ![t] = "fallback"] /\ pc' = [pc EXCEPT ![t] = "done"] /\ UNCHANGED guard
                 ELSE guard' = guard \cup {GKey(t)} /\ pc' = [pc EXCEPT ![t] = "gcompute"] /\ UNCHANGED result
-             /\ UNCHANGED <<attrs, idx, saved, seenS, seenW>>
+             /\ UNCHANGED <<attrs, idx, saved, content, savedval, seenS, seenW>>
 GCompute(t) == /\ pc[t] = "gcompute" /\ result' = [result EXCEPT ![t] = "forged"] /\ pc' = [pc EXCEPT ![t] = "gdiscard"]
-               /\ UNCHANGED <<attrs, idx, saved, seenS, seenW, guard>>
+               /\ UNCHANGED <<attrs, idx, saved, content, savedval, seenS, seenW, guard>>
 GComputeFails(t) == /\ Faults /\ pc[t] = "gcompute" /\ pc' = [pc EXCEPT ![t] = "gdiscard_raising"]
-                    /\ UNCHANGED <<attrs, idx, saved, seenS, seenW, result, guard>>
+                    /\ UNCHANGED <<attrs, idx, saved, content, savedval, seenS, seenW, result, guard>>
 GDiscard(t) == /\ pc[t] \in {"gdiscard", "gdiscard_raising"} /\ guard' = guard \ {GKey(t)}
                /\ pc' = [pc EXCEPT ![t] = IF pc[t] = "gdiscard" THEN "done" ELSE "raised"]
-               /\ UNCHANGED <<attrs, idx, saved, seenS, seenW, result>>
+               /\ UNCHANGED <<attrs, idx, saved, content, savedval, seenS, seenW, result>>
 
 Next == \E t \in Threads : Save(t) \/ SaveFails(t) \/ Del(t) \/ ReadS(t) \/ ReadW(t) \/ ReadFails(t) \/ Restore(t)
                            \/ GCheck(t) \/ GCompute(t) \/ GComputeFails(t) \/ GDiscard(t)
@@ -111,7 +123,7 @@ Spec == Init /\ [][Next]_vars
 Terminal(t) == pc[t] \in {"done", "raised"}
 Quiescent == \A t \in Threads : Terminal(t)
 (* C16: after retrieval returns or raises, the function has exactly the attributes it had, the guard is empty *)
-C16_Restored == Quiescent => (attrs = Attrs0 /\ guard = {})
+C16_Restored == Quiescent => (attrs = Attrs0 /\ guard = {} /\ \A a \in Attrs0 : content[a] = "entry")
 (* C17: every call returns what it returns when run alone *)
 C17_Sequential == \A t \in Threads : pc[t] = "done" => result[t] = SeqAnswer(t)
 (* C17: no interleaving leaves the function permanently without an attribute *)
